@@ -19,7 +19,9 @@ CLAIM = dict(
          "the Location handed to the server is ASCII for every iri_to_uri / urljoin meeting their contracts (autocorrect on or "
          "off), and the close chain through ClosingIterator: every call_on_close callback exactly once and in registration "
          "order, the wrapped iterable closed once, with or without make_sequence, for every response that is not in direct "
-         "passthrough (refuted with a witness for direct passthrough: a known finding). The status / method conditions of get_app_iter and get_wsgi_headers, the entity-header "
+         "passthrough (refuted with a witness for direct passthrough: a known finding), with the exact event trace of serving in "
+         "both modes; the body accessors: make_sequence / set_data / freeze / get_data / calculate_content_length agree with the "
+         "bytes served and with the Content-Length sent, a stored Content-Length is kept. The status / method conditions of get_app_iter and get_wsgi_headers, the entity-header "
          "table and the status-phrase table are regenerated from the source on every run; the models are compared with "
          "werkzeug.wrappers.Response by differential execution over the product of body shapes x statuses x methods x preset / "
          "absent Content-Length x direct_passthrough with instrumented closable iterables, and over mutator sequences.",
@@ -28,7 +30,7 @@ CLAIM = dict(
          "get_current_url are parameters of the model with the contract ASCII in, ASCII out (iri_to_uri: ASCII out; its "
          "percent-encoding part is C15_uri_ascii), instantiated with the identity for the correspondence runs, which use Location "
          "values that iri_to_uri leaves alone; IRI Locations and autocorrect are also judged on the implementation by the harness "
-         "oracle; the close clause is also checked through test.run_wsgi_app / Client.open / Response.from_app; generator / iterator protocol, wsgi.file_wrapper and threads are runtime behaviour outside the model.",
+         "oracle; the close clause is also checked through test.run_wsgi_app / Client.open / Response.from_app; Response.freeze, calculate_content_length, get_data, _ensure_sequence and add_etag are pinned statement by statement (freeze now closes the iterable it consumed: fix 17f1c6d); generator / iterator protocol, wsgi.file_wrapper and threads are runtime behaviour outside the model.",
     design="6/C05")
 
 
@@ -201,6 +203,25 @@ def gen() -> None:
             "if isinstance(value, str):\n    value = value.encode()", "self.response = [value]",
             "if self.automatically_set_content_length:\n    self.headers['Content-Length'] = str(len(value))"]:
         raise px.Unsupported("Response.set_data changed")
+    # body accessors: pinned statement sequences (the model mirrors them)
+    if [ast.unparse(x) for x in c08._body(c08._method(R, "freeze"))] != [
+            "close = getattr(self.response, 'close', None)", "self.response = list(self.iter_encoded())",
+            "if close is not None:\n    close()", "self.headers['Content-Length'] = str(sum(map(len, self.response)))", "self.add_etag()"]:
+        raise px.Unsupported("Response.freeze changed")
+    if [ast.unparse(x) for x in c08._body(c08._method(R, "calculate_content_length"))] != [
+            "try:\n    self._ensure_sequence()\nexcept RuntimeError:\n    return None", "return sum((len(x) for x in self.iter_encoded()))"]:
+        raise px.Unsupported("Response.calculate_content_length changed")
+    gd = [n for n in R.body if isinstance(n, ast.FunctionDef) and n.name == "get_data" and not n.decorator_list]
+    if len(gd) != 1 or [ast.unparse(x) for x in c08._body(gd[0])] != [
+            "self._ensure_sequence()", "rv = b''.join(self.iter_encoded())", "if as_text:\n    return rv.decode()", "return rv"]:
+        raise px.Unsupported("Response.get_data changed")
+    es = [ast.unparse(x) for x in c08._body(c08._method(R, "_ensure_sequence"))]
+    if len(es) != 4 or not es[0].startswith("if self.is_sequence:") or not es[1].startswith("if self.direct_passthrough:\n    raise RuntimeError(") \
+            or not es[2].startswith("if not self.implicit_sequence_conversion:\n    raise RuntimeError(") or es[3] != "self.make_sequence()":
+        raise px.Unsupported("Response._ensure_sequence changed")
+    if [ast.unparse(x) for x in c08._body(c08._method(R, "add_etag"))] != [
+            "if overwrite or 'etag' not in self.headers:\n    self.set_etag(generate_etag(self.get_data()), weak)"]:
+        raise px.Unsupported("Response.add_etag changed")
     px.write_if_changed(os.path.join(COQ, "C05", "Gen.v"), out)
 
 
@@ -340,6 +361,7 @@ def serve_case(chk, rng, shape, status, method, preset_cl, passthrough, ncb, pre
     from werkzeug.test import create_environ
     from werkzeug.wrappers import Response
     arg, chunks, counter, is_gen = make_body(shape, rng)
+    chunks0 = list(chunks)
     if shape == "filewrapper":
         passthrough = True
     case = {"kind": "resp", "shape": shape, "status": repr(status), "method": method, "preset_cl": preset_cl,
@@ -368,14 +390,47 @@ def serve_case(chk, rng, shape, status, method, preset_cl, passthrough, ncb, pre
         return cb
     for i in range(ncb):
         r.call_on_close(make_cb(i))
-    made_seq = False
-    if pre == "make_sequence" and not passthrough:
-        r.make_sequence()
-        made_seq = True
     before_hdrs = list(r.headers)
     user_cl = "Content-Length" in r.headers and preset_cl not in (None, "absent")
     is_seq0 = isinstance(arg if arg is not None else [], (list, tuple)) or isinstance(arg, (str, bytes))
     closable0 = hasattr(arg, "close")
+    # what the application does with the body before handing the response over
+    pre_tok = "0"
+    body0 = b"".join(c.encode() if isinstance(c, str) else c for c in chunks)
+    can_seq = (is_seq0 and not is_gen) or not passthrough
+    try:
+        if pre == "make_sequence" and not passthrough:
+            r.make_sequence()
+            pre_tok = "1"
+        elif pre in ("get_data", "calc"):
+            pre_tok = "g"
+            try:
+                got = r.get_data() if pre == "get_data" else r.calculate_content_length()
+            except RuntimeError:
+                got = RuntimeError
+            want_v = (body0 if pre == "get_data" else len(body0)) if can_seq else (RuntimeError if pre == "get_data" else None)
+            if oracle and got != want_v:
+                chk.fail("wsgi-body-accessor", f"{pre} gave {got!r}, the body is {body0!r}", case)
+        elif pre == "freeze":
+            r.freeze()
+            pre_tok = "f" + S(r.headers.get("ETag", ""))
+            user_cl = False
+            if oracle and (r.headers.get("Content-Length") != str(len(body0)) or not isinstance(r.response, list) or b"".join(r.response) != body0):
+                chk.fail("wsgi-body-accessor", f"freeze: Content-Length {r.headers.get('Content-Length')!r}, body {r.response!r}, expected {body0!r}", case)
+        elif pre == "set_data":
+            v = rng.choice(["héllo", b"xyz", "", b"\x00" * 4])
+            r.set_data(v)
+            pre_tok = "d" + item_tok(v)
+            chunks = [v.encode() if isinstance(v, str) else v]
+            user_cl = False
+            counter = None          # the replaced iterable is no longer the response's body
+            if oracle and (r.headers.get("Content-Length") != str(len(chunks[0])) or r.get_data() != chunks[0]):
+                chk.fail("wsgi-body-accessor", f"set_data({v!r}): Content-Length {r.headers.get('Content-Length')!r}, get_data {r.get_data()!r}", case)
+    except Exception as e:  # noqa: BLE001
+        if oracle:
+            chk.fail("wsgi-response-raises", f"{pre} raised {e!r}", case)
+        return None, "raised"
+    case["pre_token"] = pre_tok
     env = create_environ("/p", "http://localhost/base/", method=method)
 
     def go():
@@ -437,10 +492,10 @@ def serve_case(chk, rng, shape, status, method, preset_cl, passthrough, ncb, pre
     line = None
     if location is None and not autocorrect:
         try:
-            items = items_tok(chunks if not made_seq else chunks)
+            items = items_tok(chunks0)
             line = " ".join(["resp", str(r.status_code), S(r.status), kvs(before_hdrs, S), items,
                              str(int(is_seq0 and not is_gen)), str(int(closable0)), str(int(passthrough)), "1", str(ncb),
-                             str(int(made_seq)), str(int(method == "HEAD"))])
+                             pre_tok, str(int(method == "HEAD"))])
         except Exception:  # noqa: BLE001
             line = None
     obs_chunks = "/".join(item_tok(c) for c in out) if out else "~"
@@ -697,7 +752,7 @@ def run(chk: Check) -> None:
     take = combos * (2 if quick else 20)
     for shape, status, method, preset, pt in take:
         ncb = rng.choice([0, 1, 3])
-        pre = rng.choice([None, None, "make_sequence"])
+        pre = rng.choice([None, None, "make_sequence", "get_data", "calc", "freeze", "set_data"])
         line, obs = serve_case(chk, rng, shape, status, method, preset, pt, ncb, pre)
         chk.case(("resp", shape, repr(status), method, preset, pt, ncb, pre, obs), nontrivial=True,
                  sample={"shape": shape, "status": repr(status), "method": method, "preset_cl": preset, "direct_passthrough": pt, "obs": obs[:120]})
